@@ -46,6 +46,10 @@ type c11Scenario struct {
 	// RawReq: the cases carry a raw HTTP request; ClientCerts: the server instance uses client certificates
 	RawReq      bool `json:"raw_req,omitempty"`
 	ClientCerts bool `json:"client_certs,omitempty"`
+	// Host: the host the server reports ("" = 127.0.0.1; "none" = it leaves the field empty, which stands for
+	// the default host); EchoCert: under TLS it uses (and reports) the certificate it was offered
+	Host     string `json:"host,omitempty"`
+	EchoCert bool   `json:"echo_cert,omitempty"`
 	// SlowErr: the runner's own stderr takes this many (virtual) seconds per line it is given
 	SlowErr int `json:"slow_err,omitempty"`
 }
@@ -74,6 +78,8 @@ type c11Server struct {
 	port       uint32
 	errEmitted []byte
 	clientSeen func() int
+	repHost    string // what the response said
+	repCert    []byte
 }
 
 func (s *c11Server) starter() processStarter {
@@ -143,10 +149,21 @@ func (s *c11Server) respond() {
 	if port == 0 {
 		port = 4242
 	}
-	resp := &conformancev1.ServerCompatResponse{Host: "127.0.0.1", Port: port}
+	host := s.sc.Host
+	switch host {
+	case "":
+		host = "127.0.0.1"
+	case "none":
+		host = ""
+	}
+	resp := &conformancev1.ServerCompatResponse{Host: host, Port: port}
 	if s.sc.TLS || (s.gotRequest != nil && s.gotRequest.UseTls) {
 		resp.PemCert = []byte(fmt.Sprintf("-----BEGIN CERTIFICATE-----\nfake%d\n-----END CERTIFICATE-----\n", port))
+		if s.sc.EchoCert && s.gotRequest != nil && len(s.gotRequest.GetServerCreds().GetCert()) > 0 {
+			resp.PemCert = s.gotRequest.GetServerCreds().GetCert()
+		}
 	}
+	s.repHost, s.repCert = host, resp.PemCert
 	if false {
 		resp.PemCert = []byte("-----BEGIN CERTIFICATE-----\nfake\n-----END CERTIFICATE-----\n")
 	}
